@@ -55,7 +55,7 @@ func vpC31MinStart(cfg ReconnectConfig, k int) time.Duration {
 }
 
 func TestVP_C31_Manager(t *testing.T) {
-	st := vp.NewStats("C31", "manager", "real peer.Manager, 1-2 persistent peers on an address that refuses every dial; initial delay 4-12 ms, multiplier 1.5-3, cap 20-80 ms, jitter 0-0.3; dial instants recorded for 150-500 ms; the k-th attempt to an address never starts before the sum of the first k (jitter-shortened) delays; non-trivial = at least 4 attempts to one address were observed")
+	st := vp.NewStats("C31", "manager", "real peer.Manager, 1-2 persistent peers on an address that refuses every dial; initial delay 4-12 ms, multiplier 1.5-3, cap 20-80 ms, jitter 0-0.3; dial instants recorded for 150-500 ms, then optionally DisconnectAll (sleep mode) for up to 120 ms during which no attempt may start; the k-th attempt to an address never starts before the sum of the first k (jitter-shortened) delays; non-trivial = at least 4 attempts to one address were observed")
 	defer st.Flush()
 	rapid.Check(t, func(t *rapid.T) {
 		rc := ReconnectConfig{
@@ -85,9 +85,31 @@ func TestVP_C31_Manager(t *testing.T) {
 			m.Connect(context.Background(), a)
 		}
 		time.Sleep(watch)
+		// sleep mode: DisconnectAll (here with nothing connected - every peer is down) must
+		// stop the retries until ReconnectAll
+		quiet := time.Duration(rapid.IntRange(0, 120).Draw(t, "asleepMs")) * time.Millisecond
+		var pausedAt, resumedAt time.Duration
+		if quiet > 0 {
+			m.DisconnectAll()
+			pausedAt = time.Since(log.start)
+			time.Sleep(quiet)
+			resumedAt = time.Since(log.start)
+			if !m.IsPaused() {
+				t.Fatalf("VPFAIL C31 after DisconnectAll (sleep mode, no peer connected) the reconnector is not paused\n  config %+v", rc)
+			}
+		}
 		m.Close()
 		log.mu.Lock()
 		defer log.mu.Unlock()
+		if quiet > 0 {
+			for _, a := range addrs {
+				for _, at := range log.at[a] {
+					if at > pausedAt+time.Millisecond && at < resumedAt {
+						t.Fatalf("VPFAIL C31 a connection attempt to %s started %v after DisconnectAll had returned (sleep mode; %v before the end of the sleep)\n  config %+v", a, at-pausedAt, resumedAt-at, rc)
+					}
+				}
+			}
+		}
 		most := 0
 		var desc []string
 		for _, a := range addrs {
@@ -95,6 +117,15 @@ func TestVP_C31_Manager(t *testing.T) {
 			sort.Slice(at, func(i, j int) bool { return at[i] < at[j] })
 			// at[0] is the user-initiated connect; at[1+k] is reconnect attempt k, armed no
 			// earlier than at[0]
+			if quiet > 0 {
+				var kept []time.Duration
+				for _, x := range at {
+					if x <= pausedAt {
+						kept = append(kept, x)
+					}
+				}
+				at = kept
+			}
 			for k := 0; k+1 < len(at); k++ {
 				min := vpC31MinStart(rc, k) - time.Millisecond
 				if got := at[k+1] - at[0]; got < min {
